@@ -127,7 +127,7 @@ func realClientVsRefServer(c *mc.Ctx, t tuple, seed int64) {
 		}
 		off := 0
 		for _, n := range t.sc.c {
-			k, err := conn.Write(o4h.Pattern('C', off, n))
+			k, err := wire.WriteOwned(conn, o4h.Pattern('C', off, n))
 			wrote = append(wrote, k)
 			if err != nil {
 				dialErr = fmt.Errorf("Write: %w", err)
@@ -300,7 +300,7 @@ func refClientVsRealServer(c *mc.Ctx, t tuple, seed int64) {
 		}
 		off := 0
 		for _, n := range t.sc.s {
-			k, err := conn.Write(o4h.Pattern('S', off, n))
+			k, err := wire.WriteOwned(conn, o4h.Pattern('S', off, n))
 			wrote = append(wrote, k)
 			if err != nil {
 				wrapErr = fmt.Errorf("Write: %w", err)
